@@ -51,11 +51,17 @@ counted as `observation.overload` / `observation.noline`, not judged by the prop
   `exNoLine` = harness corpus case `noline`: `<class name="p/A" sourcefilename="A.java"><method
   name="m" desc="()V"/></class>` gives `err InvalidRecord`.
 
-Not part of the model (exercised by the correspondence run only): the quick-xml tokenizer
-(bytes ↔ events), UTF-8 validation of names, the `FxHashMap` iteration order inside one package
-(results are compared as sorted lists), memory used up by many lines each below `cap`.
+Byte level: Props/C10Bytes.lean (imported here) carries fidelity down to the bytes of the report
+file through a model of quick-xml's `Reader` and attribute iterator (`Jacoco.Bytes.events`):
+`C10_tokenizer_reads_back`, `C10_events_of_bytes`, `C10_fidelity_bytes`. `is_jacoco` is byte-level
+already (`C10_is_jacoco_marker_in_first_256_bytes`).
+
+Not part of the model (exercised by the correspondence run only): UTF-8 validation of names and
+values, `BufReader` chunking, the `FxHashMap` iteration order inside one package (results are
+compared as sorted lists), memory used up by many lines each below `cap`.
 -/
 import GrcovModel.Lemmas.Jacoco
+import GrcovModel.Props.C10Bytes
 namespace Grcov.Props.C10
 open Grcov AList Grcov.Jacoco Grcov.Jacoco.Spec
 
